@@ -38,6 +38,22 @@ CHECKS.update({
    text="TLC checks the frame properties of the machine (values never change, gradients only change during a back-propagation, tracking only by Reset, the environment action Scribble changes nothing the library depends on) over the operations that take or hand out caller-owned slices, with Scribble enabled between any two calls; the harness replays every transition REALLY overwriting the dimension lists, index ranges, tensor lists, nested data and Shape() results at the TLC-chosen points, compares the full state with the specification and with the run without overwriting (bit-identical). Every symbolic replay of every other property additionally snapshots all tensors around BackPropagate / Update."),
 })
 
+CHECKS.update({
+ "C09": dict(level="exploration", design="DESIGN.md 3/C09", technique="TLA+ outcome function (Total.tla) evaluated by TLC over the argument grid; every call executed on the real code under recover + watchdog",
+   note="Trusted: the preconditions transcribed in spec/TensorOps.tla (Pre), Components.tla (CompPre) and Total.tla from the statement and the validators' documented messages; arguments exhaustive within the stated grid (full product up to length 2, one position varied above), not beyond.",
+   text="TLC evaluates the outcome function of the specification (rejected, or accepted with a shape) for ~20k calls covering every public entry point with integers in [-2,6], ranks 0..5, nil tensors / slices / configs, rectangular and ragged nested data of depth 0..4, mismatched shapes and invalid configurations; the harness performs each call on the real library under recover with a watchdog and requires no panic, no hang, an error and no result exactly when the precondition is violated, otherwise a fully readable result of the specified shape."),
+ "C11": dict(level="model_checking", design="DESIGN.md 3/C11", technique="TLA+ protocol machine (Train.tla) model-checked and every transition replayed on real layers / loss / SGD; symbolic one-step maps from TLC checked along real multi-step trajectories", note=MC_NOTE,
+   text="TLC explores the training-protocol machine (forward, back-propagate, Update per parameter, Reset per parameter, every way of omitting updates and resets) with exact rational weights for the piece-wise rational models and checks Descent, GradIsCurrent, StaleIsAnError, NoLeak; every transition is replayed on a real FC layer, activation, MSE and SGD comparing weights, context state, gradients and ok/error. For every model FC -> activation -> loss TLC emits the symbolic gradient of the composed definitions; the harness runs real multi-step training and checks w_{k+1} = w_k - lr*g(w_k) after every step." + KF),
+ "C18": dict(level="exploration", design="DESIGN.md 3/C18 and 4", technique="TLA+ parameter table evaluated by TLC; exact shape / tracking / support checks + statistical conformance monitor (8-sigma)",
+   note="The distributional half (moments converge, positions independent, draws fresh) is a statistical statement: it is monitored with 8-sigma bands on 6e4 (1e6) draws, a rejection must reproduce on a doubled sample; TLC decides the shape / tracked / support / parameter-formula half only. Trusted: gonum's generator quality.",
+   text="TLC emits for every initializer / random constructor, configuration (nil configs = documented defaults) and shape the expected shape, tracking and distribution parameters as terms (sqrt(6/fanIn), sqrt(6/(fanIn+fanOut)), sqrt(2/fanIn), sqrt(2/(fanIn+fanOut)), bounds, mean, sigma); the harness checks shape, tracked-leaf-ness and support of every element exactly and mean, variance, support coverage / one-sigma mass, freshness across calls, autocorrelation and position correlation statistically."),
+ "C19": dict(level="model_checking", design="DESIGN.md 3/C19", technique="TLA+ counter machine model-checked (history variables make partition invariance an invariant); transitions and simulated long histories replayed on the real metric", note="Trusted: spec/Accuracy.tla; Result is the only observable of the counters; label ids are mapped to well-separated floats.",
+   text="TLC explores all histories (within bounds) of accepted batches and the five kinds of rejected calls and checks that the counters equal matched/total of the CONCATENATION of the accepted batches (hence partition invariance), 0 <= correct <= total, and that rejected calls change nothing; every transition of the counter-abstracted graph and prefixes of long simulated histories are replayed on the real metric (Result must equal correct/total exactly, rejected calls leave it unchanged, three re-partitions of the same data give the same Result)."),
+ "C20": dict(level="model_checking", design="DESIGN.md 3/C20 and 4", technique="TLA+ footprint model of goroutines model-checked for NoRace / Deterministic; footprints bound to the code by write-set differencing and by executing the same programs with real goroutines under Go's race detector",
+   note="TLC decides race-freedom of the footprint model; that the code's accesses stay inside the footprints is established by sequential write-set differencing (writes) and by Go's race detector on the concurrently executed programs (reads and writes) - a runtime monitor inside the conformance step. Programs are the menu of the specification, not all programs.",
+   text="TLC explores every Begin/End interleaving of 2 (3) goroutines running menu programs (forward chains, activation / loss evaluation, graph construction on a shared tracked parameter and a shared untracked tensor; private graphs back-propagated, reset and re-used; random constructors) under the statement's proviso and checks NoRace, Deterministic and SharedUntouched; without the proviso it must find the race. The harness checks that each call only changes tensors inside the specification's write footprint, and runs every assignment of programs to real goroutines under the race detector, comparing every result bit-for-bit with the sequential run."),
+})
+
 NOT_YET = {}
 
 def main():
